@@ -1575,7 +1575,8 @@ def register_all(M):
     def unstable_sort_model(it, args, callee):
         """`sort_unstable`: as the insertion sort above, but elements that compare Equal may end up in either order (the contract of an
         unstable sort; the real implementation is an insertion sort - stable in effect - up to 20 elements and a quicksort beyond, a
-        length no bounded shape reaches). Every tie is the environment's choice; at most `VERIF_SORT_TIES` (3) choices per call."""
+        length no bounded shape reaches). Every tie is the environment's choice, the same for the k-th tie of every call within one run;
+        at most `VERIF_SORT_TIES` (3) choices per call."""
         s = slice_of(args[0])
         f = it.p.find_trait_fn("Rank", "Ord", "cmp")
         items = s.items
@@ -1587,9 +1588,10 @@ def register_all(M):
                 r = it.call_function(f, [Ref(items, j - 1), Ref(items, j)])
                 swap = r.variant == 1   # Greater
                 if r.variant == 0 and ties < limit and items[j - 1] is not items[j]:     # Equal
+                    # the algorithm is deterministic: the k-th tie of a call is decided the same way in every call of one run (two
+                    # sorts of lists that compare alike - the paired runs - come out alike)
                     ties += 1
-                    _tie[0] += 1
-                    swap = it.st.branch(z3.Bool("sort_tie_swapped_%d" % _tie[0]))
+                    swap = it.st.branch(z3.Bool("sort_tie_swapped_%d" % ties))
                 if swap:
                     items[j - 1], items[j] = items[j], items[j - 1]
                     j -= 1
